@@ -41,10 +41,10 @@ def main(run):
     K = b["k"]
     NB = b["digest_bytes"]
     run.bounds = {"artifacts": f"0..{K} with arbitrary os/arch, arbitrary versions (total order: integer ranks incl. ties; partial order: 2-d product order), "
-                               "arbitrary requirement predicate", "query": "every os x arch", "checksum strings": f"unbounded length (string/regex decision); digest scaled down to {NB} bytes ({2 * NB} hex digits) with name sha256"}
+                               "arbitrary requirement predicate", "query": "every os x arch", "round trip": "inventories of 0..2 artifacts with version/url/metadata SMT strings (V = String, M = Option<String>), every os/arch, an arbitrary digest", "checksum strings": f"unbounded length (string/regex decision); digest scaled down to {NB} bytes ({2 * NB} hex digits) with name sha256"}
     run.assumptions = ["Ord / PartialOrd implementations handed to the code are lawful", "hex::decode accepts exactly even-length strings of hex digits; hex::encode inverts it",
                        "Iterator::max_by_key returns the last maximal element (std)"]
-    run.outside = ["Inventory <-> TOML text round trip (derived serde of Artifact/Os/Arch enums): not covered yet", "semver/sha2 feature adapters"]
+    run.outside = ["the toml text layer of the inventory round trip (documents are trees; witnesses go through the real Display/FromStr)", "semver/sha2 feature adapters"]
     P = run.program(CRATES)
     summ_core.install(P)
     summ_coll.install(P)
@@ -93,10 +93,12 @@ def main(run):
         return str(v.fields[0]) if isinstance(v, Adt) else str(v)
 
     def entry(ctx):
-        mode = ["resolve", "partial_resolve", "checksum", "checksum-roundtrip"][ctx.choose([True] * 4, "mode")]
+        mode = ["resolve", "partial_resolve", "checksum", "checksum-roundtrip", "inventory-roundtrip"][ctx.choose([True] * 5, "mode")]
         ctx.mode = mode
         if mode.startswith("checksum"):
             return checksum_entry(ctx, mode)
+        if mode == "inventory-roundtrip":
+            return inventory_roundtrip(ctx)
         n = ctx.choose([True] * (K + 1), "n-artifacts")
         arts, ctx.sat_of, ctx.msat_of, ctx.meta = [], {}, {}, []
         for i in range(n):
@@ -194,6 +196,28 @@ def main(run):
         v = deref(r.fields[0])
         return {"ok": True, "roundtrip": True, "same": deref(v.fields[P.field_index("Checksum", "value")]) is bts, "name": sval(v.fields[P.field_index("Checksum", "name")])}
 
+    def inventory_roundtrip(ctx):
+        """derived Serialize of Inventory/Artifact/Os/Arch (+ Checksum's own) into a document, derived Deserialize back"""
+        n = ctx.choose([True] * 3, "n-artifacts")
+        arts, ctx.rt = [], []
+        for i in range(n):
+            os_ = OS[ctx.choose([True, True], f"os{i}")]
+            ar_ = ARCH[ctx.choose([True, True], f"arch{i}")]
+            ver, url = z3.String(f"ver{i}"), z3.String(f"url{i}")
+            has_meta = ctx.choose([True, True], f"meta{i}") == 1
+            meta = z3.String(f"meta{i}")
+            bts = Bytes(z3.Int(f"bytes_id{i}"), NB)
+            cs = P.mk_struct("Checksum", name="sha256", value=bts, digest=UNIT)
+            arts.append(P.mk_struct("Artifact", version=ver, os=Adt("Os", os_, []), arch=Adt("Arch", ar_, []), url=url, checksum=cs, metadata=Some(meta) if has_meta else NONE))
+            ctx.rt.append(dict(os=os_, arch=ar_, ver=ver, url=url, meta=meta if has_meta else None, bytes=bts))
+        inv = P.mk_struct("Inventory", artifacts=VecV(arts))
+        try:
+            tree = P.ser_value(ctx, Ref(Box(inv)))
+        except P.SerFail as e:
+            return {"ser": "Err"}
+        back = deref(P.deser_type(ctx, "Inventory<String, Sha, Option<String>>", tree))
+        return {"ser": "Ok", "tree": tree, "back": back}
+
     from mirsym import summ_serde
     summ_serde.install(P)
     res = run.explore(P, entry, lambda ctx: [], max_paths=3000000, max_depth=50)
@@ -226,6 +250,32 @@ def main(run):
             ans, m = run.check(ctx.pc, "witness", want=want)
             if ans == "sat":
                 pending.append((ctx, m, out, None))
+            continue
+        if ctx.mode == "inventory-roundtrip":
+            want = [x for a in ctx.rt for x in (a["ver"], a["url"]) + ((a["meta"],) if a["meta"] is not None else ())]
+            cs_ = []
+            if out.get("ser") != "Ok" or out["back"].variant != "Ok":
+                cl = z3.BoolVal(False)
+            else:
+                items = [deref(x) for x in deref(deref(out["back"].fields[0]).fields[P.field_index("Inventory", "artifacts")]).items]
+                if len(items) != len(ctx.rt):
+                    cl = z3.BoolVal(False)
+                else:
+                    f_ = lambda a, name: deref(a.fields[P.field_index("Artifact", name)])
+                    for a, e in zip(items, ctx.rt):
+                        cs_ += [S(sval(f_(a, "version"))) == e["ver"], S(sval(f_(a, "url"))) == e["url"], z3.BoolVal(f_(a, "os").variant == e["os"] and f_(a, "arch").variant == e["arch"])]
+                        md = f_(a, "metadata")
+                        cs_.append(z3.BoolVal(md.variant == "None") if e["meta"] is None else (S(sval(md.fields[0])) == e["meta"] if md.variant == "Some" else z3.BoolVal(False)))
+                        ck = f_(a, "checksum")
+                        cs_.append(z3.BoolVal(deref(ck.fields[P.field_index("Checksum", "value")]) is e["bytes"] and sval(ck.fields[P.field_index("Checksum", "name")]) == "sha256"))
+                    cl = z3.And(cs_) if cs_ else z3.BoolVal(True)
+            ans, m = run.check(ctx.pc + [z3.Not(cl)], "inventory.parse-of-render", want=want)
+            if ans == "sat":
+                pending.append((ctx, m, out, "inventory:render-not-reparsed-equal"))
+            elif modes[ctx.mode] % (3 if run.tier == "quick" else 1) == 0:
+                ans, m = run.check(ctx.pc, "witness", want=want)
+                if ans == "sat":
+                    pending.append((ctx, m, out, None))
             continue
         if ctx.mode == "checksum-roundtrip":
             ok = out["ok"] and out.get("same") and out.get("name") == "sha256"
@@ -269,6 +319,9 @@ def main(run):
             reqs.append({"op": "checksum", "s": enc_str(m.str(ctx.cs)), "nbytes": NB})
         elif ctx.mode == "checksum-roundtrip":
             reqs.append({"op": "checksum-roundtrip"})
+        elif ctx.mode == "inventory-roundtrip":
+            reqs.append({"op": "inventory-roundtrip", "artifacts": [{"os": a["os"].lower(), "arch": a["arch"].lower(), "version": enc_str(m.str(a["ver"])), "url": enc_str(m.str(a["url"])),
+                                                                   "metadata": None if a["meta"] is None else enc_str(m.str(a["meta"])), "seed": i} for i, a in enumerate(ctx.rt)]})
         else:
             arts = []
             for os_, ar_, ver, i in ctx.meta:
@@ -295,6 +348,15 @@ def main(run):
             run.stats["validated"] += 1
             if sig:
                 run.candidate(sig, "render/parse of a checksum", req, not real.get("ok"))
+        elif ctx.mode == "inventory-roundtrip":
+            if sig is None and not real.get("equal"):
+                run.mismatch(f"inventory round trip: model equal, real {real} for {req}")
+                continue
+            run.stats["validated"] += 1
+            if sig:
+                run.candidate(sig, f"{req['artifacts']} -> {real.get('text', '')[:300]!r} -> equal={real.get('equal')}", req, not real.get("equal"))
+            else:
+                run.sample({"inventory": real.get("text", "")[:200]}, limit=4)
         else:
             viol = inv_violation(req, real)
             if real.get("result") != out["res"] and sig is None:
@@ -324,7 +386,7 @@ def inv_violation(req, real):
 
 def finalize(run):
     m = run.extra.get("modes", {})
-    for need in ("resolve", "partial_resolve", "checksum", "checksum-roundtrip"):
+    for need in ("resolve", "partial_resolve", "checksum", "checksum-roundtrip", "inventory-roundtrip"):
         if not m.get(need):
             run.inconclusive.append(f"vacuity: mode {need} never explored")
 
